@@ -274,13 +274,54 @@ class Checker(object):
                 continue
             n += 1
             if v1 != v2:
+                # diagnosis: the same call once more, here and in a fresh
+                # environment (is the result state-dependent?)
+                diag = ''
+                try:
+                    from pysmt.environment import Environment, push_env, \
+                        pop_env
+                    if mode == 'default':
+                        r2 = f.substitute(fsubs, fi)
+                    elif mode == 'mgs':
+                        r2 = MGSubstituter(env).substitute(f, fsubs, fi)
+                    else:
+                        r2 = MSSubstituter(env).substitute(f, fsubs, fi)
+                    diag += ' [same call again: %s]' % (
+                        'same result' if r2 is r else 'ANOTHER result %s' %
+                        B.show(B.describe(r2), 120))
+                    e2 = Environment()
+                    push_env(e2)
+                    try:
+                        f3 = B.build(b, e2)
+                        fi3 = {}
+                        for (fn, fty), (formals, body) in interps.items():
+                            fi3[B.build(B.Sym(fn, fty), e2)] = \
+                                FunctionInterpretation(
+                                    [B.build(B.Sym(*p), e2)
+                                     for p in formals], B.build(body, e2))
+                        fs3 = {B.build(B.Sym(*k), e2): B.build(v, e2)
+                               for k, v in smap.items()}
+                        S3 = {'default': e2.substituter.__class__,
+                              'mgs': MGSubstituter,
+                              'mss': MSSubstituter}[mode]
+                        r3 = S3(e2).substitute(f3, fs3, fi3)
+                        diag += ' [fresh environment: %s]' % (
+                            'same result' if B.describe(r3) == rb else
+                            'ANOTHER result %s' % B.show(B.describe(r3),
+                                                         120))
+                    finally:
+                        pop_env()
+                except Exception as e:
+                    diag += ' [diagnosis failed: %r]' % e
                 return 'interp', (
-                    '%s with %s gave %s; under %s original=%s result=%s' % (
+                    '%s with %s and map %s gave %s; under %s original=%s '
+                    'result=%s%s' % (
                         B.show(fb, 160), {k[0]: B.show(v[1], 60)
                                           for k, v in interps.items()},
+                        {k[0]: B.show(v, 60) for k, v in smap_d.items()},
                         B.show(rb, 160), {k: R.vrepr(v) for k, v in I.items()
                                           if not callable(v)},
-                        R.vrepr(v1), R.vrepr(v2)))
+                        R.vrepr(v1), R.vrepr(v2), diag))
         if n:
             self.rep.count('interp_compared')
         return None, None
@@ -351,6 +392,45 @@ def run(rep):
             G.Cfg(max_depth=4, arrays=False, bv=False, share=0.4,
                   qtypes=[B.BOOL, B.INT]),
             G.Cfg(max_depth=4, uf=True, quant=True, share=0.3)]
+    # quantifiers that share the very same body but bind different
+    # variables, shadowing, nested re-binding: with constant replacements
+    if rep.shard == 0 and (not rep.only or rep.only == 'lemma'):
+        common.fresh_env()
+        x, y, z = B.Sym('i0', B.INT), B.Sym('i1', B.INT), B.Sym('i2', B.INT)
+        p, q = B.Sym('p0', B.BOOL), B.Sym('p1', B.BOOL)
+        X, Y, P, Qv = ('i0', B.INT), ('i1', B.INT), ('p0', B.BOOL), \
+            ('p1', B.BOOL)
+        body = ('lt', None, (('plus', None, (x, y)), z))
+        bb = ('or', None, (p, ('and', None, (q, ('lt', None, (x, y))))))
+        specials = [
+            ('and', None, (('forall', (X,), (body,)),
+                           ('exists', (Y,), (body,)))),
+            ('or', None, (('exists', (X,), (body,)),
+                          ('forall', (Y,), (body,)), body)),
+            ('and', None, (('forall', (X, Y), (body,)),
+                           ('exists', (Y,), (body,)),
+                           ('forall', (X,), (body,)))),
+            ('and', None, (('forall', (P,), (bb,)),
+                           ('exists', (Qv,), (bb,)), bb)),
+            ('iff', None, (('forall', (P,), (bb,)),
+                           ('forall', (Qv, X), (bb,)))),
+            ('forall', (X,), (('and', None, (
+                body, ('exists', (X,), (body,)),
+                ('exists', (Y,), (body,)))),)),
+        ]
+        maps = [{X: B.Int(1), Y: B.Int(2)}, {X: B.Int(1)}, {Y: B.Int(2)},
+                {X: z, Y: B.Int(0)}, {P: B.Bool(True), Qv: B.Bool(False)},
+                {P: B.Bool(False), X: B.Int(3)}, {Qv: q, Y: z}]
+        for b0 in specials:
+            for m0 in maps:
+                for mode in modes:
+                    kind, info = ck.lemma_once(b0, m0, mode)
+                    rep.count('special_quantifier_cases')
+                    ck.report('lemma-' + mode, kind, info, b0, {
+                        'smap': {k[0]: B.to_json(v)
+                                 for k, v in m0.items()}},
+                        again=lambda x_, m0=m0, mode=mode: ck.lemma_once(
+                            x_, m0, mode), detail='plain-map')
     for j in range(n):
         if rep.out_of_time():
             rep.notes.append('truncated at %d of %d' % (j, n))
@@ -491,6 +571,12 @@ def run(rep):
                 if any(s[0] == 'app' and s[1] in interps
                        for s in B.subterms(smap[k])):
                     smap = {}
+            if mode == 'mss' and any(v[0] == 'not' for v in smap.values()):
+                # x -> Not(..) under MSS is the recorded double-negation
+                # re-lookup (key C05/lemma-mss/...): the interpretation
+                # workload keeps clear of that one mechanism
+                rep.count('mss_negation_maps_left_to_the_lemma_workload')
+                smap = {}
             kind, info = ck.interp_once(b, interps, smap, mode)
             ck.report('interp-' + mode, kind, info, b, {})
     for name, info in M.PENDING:
